@@ -184,7 +184,10 @@ def exprs(tier, rng):
     out += [A.Attribute(A.Attribute(C('a'), 'b'), 'c'), A.Attribute(A.Function('f', [a]), 'x'), A.Subscript(A.Attribute(C('e'), 'meta'), 'k'), A.Attribute(A.Subscript(C('m'), 'k'), 'z'),
             A.Neg(A.Attribute(C('a'), 'b')), A.Neg(K(5)), A.Neg(A.Neg(a)), A.Not(A.Not(a))]
     # literals
-    lits = [0, 7, 1234567890123456789012345, Decimal('0.5'), Decimal('10.'), Decimal('3.14159'), '', 'it is', 'say "hi"', "it's", 'a;b -- c /* d */', None, True, False,
+    lits = [0, 7, 1234567890123456789012345, Decimal('0.5'), Decimal('10.'), Decimal('3.14159'),
+            # more digits than the default decimal context keeps: a literal denotes exactly the number written
+            Decimal('1.00000000000000000000000000001'), Decimal('123456789012345678901234567890.123456789'), Decimal('0.000000000000000000000000000000000001'),
+            '', 'it is', 'say "hi"', "it's", 'a;b -- c /* d */', None, True, False,
             datetime.date(1, 1, 1), datetime.date(9999, 12, 31), [1, 2, 3], ['a', 'b'], [Decimal('1.5'), 2], [datetime.date(2024, 1, 1), None], [1]]
     out += [K(v) for v in lits]
     return out
@@ -311,6 +314,29 @@ def run(tier, seed):
                 got = f'{type(e).__name__}: {e}'
             if got != base:
                 res.violation('h06:comment:' + c.strip()[:20], 'block comments are white space, whatever their closing looks like', {'text': text}, repr(got)[:200], repr(base)[:200])
+    # operator sequences written without white space denote what the spaced, parenthesised spelling denotes (there is no `--` token)
+    for tight, spaced in [('SELECT a--b', 'SELECT a - (- b)'), ('SELECT a -- b', 'SELECT a - (- b)'), ('SELECT a --b', 'SELECT a - (- b)'), ('SELECT --a', 'SELECT - (- a)'),
+                          ('SELECT a*--b', 'SELECT a * (- (- b))'), ('SELECT 1--1 AS x FROM #t WHERE a--b > 7', 'SELECT 1 - (- 1) AS x FROM #t WHERE a - (- b) > 7'),
+                          ('SELECT a-b', 'SELECT a - b'), ('SELECT a+-b', 'SELECT a + (- b)'), ('SELECT a<-1', 'SELECT a < (- 1)'), ('SELECT a>=-b*c', 'SELECT a >= ((- b) * c)'),
+                          ('SELECT a!=-b', 'SELECT a != (- b)'), ('SELECT a/-b%-c', 'SELECT (a / (- b)) % (- c)')]:
+        res.case(('tight', tight))
+        try:
+            got = parser.parse(tight)
+        except Exception as e:  # noqa
+            got = f'{type(e).__name__}: {e}'
+        want = parser.parse(spaced)
+        if got != want:
+            res.violation('h06:tight-operators:' + tight, 'operator sequences without white space parse like their spaced spelling', {'text': tight}, repr(got)[:200], repr(want)[:200])
+    # a date-shaped token that is no calendar date is an error, never a subtraction
+    for text in ('SELECT 2014-02-30', 'SELECT 2023-02-29', 'SELECT 2024-13-01', 'SELECT 2024-00-10', 'SELECT a FROM #t WHERE d > 2024-04-31', 'SELECT 0000-01-01', 'SELECT 2024-01-32'):
+        res.case(('invalid-date', text))
+        try:
+            got = repr(parser.parse(text))[:120]
+        except parser.ParseError:
+            continue
+        except Exception as e:  # noqa
+            got = f'{type(e).__name__}: {e}'
+        res.violation('h06:invalid-date:' + text, 'a date literal that is not a calendar date is rejected with ParseError', {'text': text}, got, 'ParseError')
     # string literals are taken verbatim between their delimiters, whatever surrounds the statement (indentation of its lines, quote
     # characters of the other kind at the ends of the literal, line breaks inside it)
     from beanquery.parser import ast as A2
